@@ -114,6 +114,7 @@ static void t_shiftinv(const Pencil& p, Local& L)
         h.str(cfg);
         h.str(p.desc);
         L.distinct.insert(h.h);
+        L.sample("{\"configuration\": " + jstr(cfg) + ", \"pencil\": " + jstr(p.desc) + "}", 4);
     }
     auto A0 = Store<AS, FA, IA>::make(p.A, UA, false), A1 = Store<AS, FA, IA>::make(p.A, UA, true);
     auto B0 = Store<BS, FB, IB>::make(p.B, UB, false), B1 = Store<BS, FB, IB>::make(p.B, UB, true);
